@@ -1137,7 +1137,7 @@ pub fn gen_value(d: &Desc, rng: &mut Rng, budget: usize) -> Value {
         }
         Desc::Vec { elem, len } => {
             let es = elem.size().max(1);
-            let maxn = (budget / es).min(len.max_usize()).min(40);
+            let maxn = (budget / es).min(len.max_usize()).min(300);
             let n = match rng.below(6) {
                 0 => 0,
                 1 => 1.min(maxn),
@@ -1147,7 +1147,7 @@ pub fn gen_value(d: &Desc, rng: &mut Rng, budget: usize) -> Value {
             Value::Seq((0..n).map(|_| gen_value(elem, rng, budget)).collect())
         }
         Desc::Str { len } => {
-            let maxn = budget.min(len.max_usize()).min(40);
+            let maxn = budget.min(len.max_usize()).min(300);
             let mut s = String::new();
             let pieces = rng.below(4);
             for _ in 0..pieces {
